@@ -321,8 +321,8 @@ DIRECTED = [
 # with names that also exist in the enclosing scopes.  Used to compare renaming / hoisting on top of the transformed tree.
 TRANSFORM_SHAPES = [
     "timeout = 99\nretries = 7\ndef build(flag):\n    class Settings:\n        timeout: int = 30\n        if flag:\n            retries: int = 3\n        else:\n            retries: int = 5\n        try:\n            verbose: bool = False\n        finally:\n            pass\n    return Settings, timeout, retries\nprint(build(True)[0].timeout, build(False)[0].retries, build(True)[1:], timeout, retries)\n",
-    "def factory():\n    class Codec:\n        import json as serializer\n        import zlib as compressor\n        import base64\n        def pack(self, value):\n            return self.compressor.compress(self.serializer.dumps(value).encode())\n    return Codec\nprint(sorted(n for n in vars(factory()) if not n.startswith('_')))\n",
-    "class Codec:\n    import json as serializer\n    import zlib as compressor\n    def pack(self, value):\n        return self.compressor.compress(self.serializer.dumps(value).encode())\nserializer = 1\nprint(sorted(n for n in vars(Codec) if not n.startswith('_')), serializer)\n",
+    "def factory():\n    class Codec:\n        import json as serializer\n        import zlib as compressor\n        import base64\n        def pack(self, value):\n            return self.compressor.compress(self.serializer.dumps(value).encode())\n    return Codec\nprint(sorted(n for n in factory().__dict__ if not n.startswith('_')))\n",
+    "class Codec:\n    import json as serializer\n    import zlib as compressor\n    def pack(self, value):\n        return self.compressor.compress(self.serializer.dumps(value).encode())\nserializer = 1\nprint(sorted(n for n in Codec.__dict__ if not n.startswith('_')), serializer)\n",
     "def deco(arg):\n    def wrap(fn):\n        fn.arg = arg\n        return fn\n    return wrap\n@deco(True | False)\ndef configure(strict=True | False, verbose=True & True, *, check=False | True):\n    return strict, verbose, check, True\nprint(configure(), configure.arg)\n",
     "def scaled(unit=0.5 + 0.5, base=1.5 - 0.5, *, zero=1.0 - 1.0):\n    return unit, base, zero, 1.0, 0.0\nprint(scaled())\ndef table():\n    return [2.0 - 1 for value in range(3)], [0.5 * 2 for other in range(2)], 1.0\nprint(table())\n",
     "def outer():\n    class Checked(object):\n        limit: int = 10\n        def run(self, amount: int = 1) -> None:\n            assert amount < self.limit, 'too much'\n            if __debug__:\n                print('debug')\n            pass\n            return None\n    return Checked\nprint(outer()().run())\n",
